@@ -33,8 +33,8 @@ EverOf(s) == {[name |-> p.name, idx |-> p.idx, retry |-> p.retry] : p \in Range(
 SuccOf(s) == Range(s.succ)
 NoKube(s) == Range(s.nokube)
 \* latest finish time among the tasks the controller can know of: recorded in a status that reached the API, or still existing
-MaxFin(s, li) == LET K == {x.name : x \in li} \cup Names(s.pods)
-                     F == {q.fin : q \in {y \in Range(s.ever) : y.name \in K}} \cup {r.fin : r \in Range(s.job.refs)} \cup {0}
+MaxFin(s, li, ps) == LET K == {x.name : x \in li} \cup Names(s.pods)
+                     F == {q.fin : q \in {y \in Range(s.ever) : y.name \in K}} \cup {r.fin : r \in Range(s.job.refs)} \cup {q.fin : q \in Range(ps.p)} \cup {0}
                  IN CHOOSE m \in F : \A x \in F : x <= m
 
 \* ---- witnesses of known histories, evaluated at SyncBegin on the state before the pass ----
@@ -95,7 +95,7 @@ Next ==
            ed == IF reset THEN FALSE ELSE edited \/ (e.ev \in {"UserKill", "UserDelete"} /\ p.job.kind = "Finished")
            ud == IF reset THEN FALSE ELSE udel \/ e.ev = "UserDelete"
            ta == IF reset THEN 0 ELSE IF e.ev = "Step" /\ e.op = "delete/jobs" /\ e.err \in {"", "applied-but-error"} /\ ttlAt = 0 THEN s.now ELSE ttlAt
-           tlb == IF reset THEN 0 ELSE IF ta # ttlAt THEN MaxFin(p, listed) ELSE ttlLB
+           tlb == IF reset THEN 0 ELSE IF ta # ttlAt THEN MaxFin(p, listed, ps) ELSE ttlLB
            at == IF reset THEN FALSE
                  ELSE admTruth \/ (e.ev = "Step" /\ e.op = "create/pods" /\ e.err = "AlreadyExists"
                                     /\ \E q \in Range(p.pods) : q.name = e.key /\ ~q.mine)
